@@ -240,6 +240,11 @@ pub fn check_history(h: &History, cc: &mut CaseCtx) -> CheckResult {
         }
         if a.verdict().is_specified() {
             check_against_model(&a, &o).map_err(|f| Failure::new(&f.sig, ctxt(f.msg)))?;
+            // "consulted last": a request that fails any of rules 1-13 does not touch the provider at all --
+            // not even its readiness (which may reserve a slot in the key store)
+            if a.verdict().rank() < R_PROVIDER && !o.prov_log.is_empty() {
+                return Err(Failure::new("provider-touched-by-defective-request", ctxt(format!("the request fails rule {} yet the provider saw {:?}", a.verdict().rank(), o.prov_log))));
+            }
             // provider errors are passed through unchanged
             if let (Verdict::Reject { rank, .. }, exec::Res::Err(e)) = (a.verdict(), &o.res) {
                 if *rank == R_PROVIDER {
